@@ -22,12 +22,14 @@ Transcribed (same branches, same order of side effects):
   meaning (`Lib.builtin`, `Kap/Model/C04Lib.lean`); only the builtins listed in `Lib.oracleFns` are external calls
   `ctx.call` (the harness supplies the library's answers), as is regex matching; any other name is an error;
 * the entry paths `Expression.Eval` (`evalTop`: `Type`, `EvalX` by type, `recover`), `EvalPredicate`'s
-  `Type`-then-`EvalBool` (`evalPred`), direct `EvalX` (`evalDirect`), `CopyReset` (fresh `FnState`, SAME cache), and `kapacitor.EvalPredicate` of the root
+  `Type`-then-`EvalBool` (`evalPred`), direct `EvalX` (`evalDirect`), `CopyReset` (`World`, end of this file), and `kapacitor.EvalPredicate` of the root
   package (`evalPoint`: `fillScope` over `FindReferenceVariables`, then `evalPred`).
 * `EvalLambdaNode` (`Expr.lam`): constant type / `IsDynamic` / `Type` of the body, every `EvalX` = `Type`, type test, then
-  the body's `EvalX` with the state the NODE owns (created once in `NewEvalLambdaNode`), not the state passed in; the
-  states of the lambda nodes travel in `FnState.lams`, and `World` (end of this file) says who shares what: cache and
-  lambda-node states belong to the compiled expression and are shared by all `CopyReset` copies, `Funcs` are per copy.
+  the body's `EvalX` with the state the NODE owns (created in `NewEvalLambdaNode` / `copyReset`), not the state passed
+  in; the states of the lambda nodes travel in `FnState.lams`, and `World` (end of this file) says who shares what since
+  `fix:` dcda92d: `CopyReset` = `copyResetNodeEvaluator` gives every copy its own `Funcs`, its own lambda nodes (fresh
+  state each) and its own copies of the node evaluators above a lambda node; every other node evaluator, with its
+  specialisation cache, is shared by all copies. `OldWorld` is the sharing before the fix (lambda-node states shared).
 Abstracted: error values are one class (no decision of the repaired evaluator depends on the error);
 dynamic functions registered on a scope, `rand`, `now`, `Expression.Reset` are not modelled; the cache is a tree parallel to the expression.
 Core Lean only.
@@ -85,8 +87,8 @@ def FnBase.init {F} (ops : FOps F) : FnBase F :=
 
 /-- Everything stateful an evaluation can touch: the `ExecutionState` it was handed (the fields inherited from
 `FnBase`: the state of the expression instance = of the group) and the `ExecutionState`s owned by the lambda NODES
-(`EvalLambdaNode.state`), by node id. The latter belong to the node evaluators: `CopyReset` copies share them (see
-`World` below) — the evaluator itself only ever sees this pair. -/
+(`EvalLambdaNode.state`), by node id. The latter belong to the node evaluators (`World` below says which copy sees
+which node) — the evaluator itself only ever sees this pair. -/
 structure FnState (F : Type) extends FnBase F where
   lams : Nat → FnBase F
 
@@ -724,33 +726,124 @@ def evalPoint {F : Type} (ctx : Ctx F) (e : Expr F) (p : Point F) (c : Cache) (s
   | some σ => evalPred ctx σ e c st
 
 /-- The cache of a compiled expression after ANY earlier evaluations: each one through any entry path, against
-any scope, with the function state of any group (`CopyReset` copies share the cache). -/
+any scope, with the function state of any group (`CopyReset` copies share every node evaluator that has no lambda
+node below it; what ONE copy sees is `mixCache` of two such caches, see `World`). -/
 def reach {F : Type} (ctx : Ctx F) (e : Expr F) (pre : List (Path × Scope F × FnState F)) : Cache :=
   pre.foldl (fun c x => (runPath ctx x.2.1 x.1 e c x.2.2).2.1) (compileCache ctx e)
 
 /-! ### one compiled expression and its `CopyReset` copies (one per group) -/
 
-/-- What exists at run time for ONE compiled expression used by several groups: the node evaluators — with their
-specialisation cache AND the `ExecutionState` of every lambda node — exist once and are shared by all `CopyReset`
-copies (`CopyReset` copies the `nodeEvaluator` pointer); each copy owns the `ExecutionState` it hands to the root node. -/
+/-- does the node evaluator of `e` hold a lambda node, or have one below it? `copyReset()` (node_evaluator.go and the
+four node kinds with children) returns the receiver itself when it does not, a copy of the node otherwise. -/
+def hasLam {F : Type} : Expr F → Bool
+  | .lam _ _ => true
+  | .un _ e => hasLam e
+  | .bin _ l r => hasLam l || hasLam r
+  | .call1 _ a => hasLam a
+  | .call2 _ a b => hasLam a || hasLam b
+  | .call3 _ a b c => hasLam a || hasLam b || hasLam c
+  | .call4 _ a b c d => hasLam a || hasLam b || hasLam c || hasLam d
+  | _ => false
+
+/-- the cache ONE copy evaluates with: the records of the nodes `CopyReset` copied (`hasLam`) are the copy's `own`,
+everything else is the `shared` node evaluator's. Both arguments are whole cache trees; only the `hasLam` positions
+of `own` and the other positions of `shared` are read. -/
+def mixCache {F : Type} : Expr F → Cache → Cache → Cache
+  | .un op e, own, sh =>
+    if hasLam (.un op e) then .node own.lt own.rt own.fn (mixCache e own.k1 sh.k1) own.k2 own.k3 else sh
+  | .bin op l r, own, sh =>
+    if hasLam (.bin op l r) then .node own.lt own.rt own.fn (mixCache l own.k1 sh.k1) (mixCache r own.k2 sh.k2) own.k3 else sh
+  | .call1 fn a, own, sh =>
+    if hasLam (.call1 fn a) then .node own.lt own.rt own.fn (mixCache a own.k1 sh.k1) own.k2 own.k3 else sh
+  | .call2 fn a b, own, sh =>
+    if hasLam (.call2 fn a b) then .node own.lt own.rt own.fn (mixCache a own.k1 sh.k1) (mixCache b own.k2 sh.k2) own.k3 else sh
+  | .call3 fn a b c, own, sh =>
+    if hasLam (.call3 fn a b c) then
+      .node own.lt own.rt own.fn (mixCache a own.k1 sh.k1) (mixCache b own.k2 sh.k2) (mixCache c own.k3 sh.k3)
+    else sh
+  | .call4 fn a b c d, own, sh =>
+    if hasLam (.call4 fn a b c d) then
+      .node own.lt own.rt own.fn (mixCache a own.k1 sh.k1) (mixCache b own.k2 sh.k2)
+        (.node own.k3.lt own.k3.rt own.k3.fn (mixCache c own.k3a sh.k3a) (mixCache d own.k3b sh.k3b) own.k3.k3)
+    else sh
+  | .lam _ e, own, sh => .node own.lt own.rt own.fn (mixCache e own.k1 sh.k1) own.k2 own.k3
+  | _, _, sh => sh
+
+/-- What exists at run time for ONE compiled expression used by several groups (`fix:` dcda92d): `CopyReset` gives
+every copy an `ExecutionState` of its own AND its own lambda nodes, each with a fresh state — the node evaluators on the
+path from the root to a lambda node are copied with them (`own`: the copy's records of those nodes; a copy starts with
+what the original holds at that moment), all other node evaluators, with their specialisation cache, exist once and are
+shared by all copies (`shared`). Copy 0 is the compiled expression itself. -/
 structure World (F : Type) where
-  cache : Cache
-  lams : Nat → FnBase F
+  shared : Cache
+  own : Nat → Cache
+  lams : Nat → Nat → FnBase F
   groups : Nat → FnBase F
 
-/-- right after `NewExpression`; every copy `CopyReset` will ever make starts with fresh functions. -/
+/-- right after `NewExpression`, with the copies made before anything is evaluated (every node of the root package
+copies its never-evaluated node-level expression in `NewGroup`): every copy starts with fresh functions, inside nested
+lambdas too, and with the compile-time records. -/
 def World.init {F : Type} (ctx : Ctx F) (e : Expr F) : World F :=
-  { cache := compileCache ctx e, lams := fun _ => FnBase.init ctx.ops, groups := fun _ => FnBase.init ctx.ops }
+  { shared := compileCache ctx e, own := fun _ => compileCache ctx e,
+    lams := fun _ _ => FnBase.init ctx.ops, groups := fun _ => FnBase.init ctx.ops }
 
-/-- the copy of group `g` is asked through path `p` against scope `σ`. -/
+/-- the cache copy `g` evaluates with. -/
+def World.cacheOf {F : Type} (e : Expr F) (w : World F) (g : Nat) : Cache := mixCache e (w.own g) w.shared
+
+/-- `CopyReset` of the compiled expression (copy 0) into slot `k`, at any time: fresh functions, fresh lambda-node
+states, the copied nodes start with the records the original holds now. -/
+def World.copy {F : Type} (ctx : Ctx F) (w : World F) (k : Nat) : World F :=
+  { shared := w.shared, own := fun j => if j = k then w.own 0 else w.own j,
+    lams := fun j => if j = k then fun _ => FnBase.init ctx.ops else w.lams j,
+    groups := fun j => if j = k then FnBase.init ctx.ops else w.groups j }
+
+/-- the copy of group `g` is asked through path `p` against scope `σ`: its own functions and lambda-node states; the
+cache records it wrote land in its own nodes (`own g`) and in the shared ones (`shared`) — both are kept as whole trees,
+`mixCache` reads each at its positions only. -/
 def World.step {F : Type} (ctx : Ctx F) (e : Expr F) (w : World F) (g : Nat) (p : Path) (σ : Scope F) :
     Outcome (Value F) × World F :=
-  let r := runPath ctx σ p e w.cache { toFnBase := w.groups g, lams := w.lams }
-  (r.1, { cache := r.2.1, lams := r.2.2.lams, groups := fun j => if j = g then r.2.2.toFnBase else w.groups j })
+  let r := runPath ctx σ p e (w.cacheOf e g) { toFnBase := w.groups g, lams := w.lams g }
+  (r.1, { shared := r.2.1, own := fun j => if j = g then r.2.1 else w.own j,
+          lams := fun j => if j = g then r.2.2.lams else w.lams j,
+          groups := fun j => if j = g then r.2.2.toFnBase else w.groups j })
 
 /-- the answers to a sequence of questions (group, path, scope). -/
 def World.run {F : Type} (ctx : Ctx F) (e : Expr F) : World F → List (Nat × Path × Scope F) → List (Outcome (Value F))
   | _, [] => []
   | w, q :: rest => (w.step ctx e q.1 q.2.1 q.2.2).1 :: World.run ctx e (w.step ctx e q.1 q.2.1 q.2.2).2 rest
+
+/-- what can happen to a compiled expression and its copies: a copy is asked, or `CopyReset` (re)makes copy `k` from the
+compiled expression. -/
+inductive WOp (F : Type) where
+  | ask (q : Nat × Path × Scope F)
+  | copy (k : Nat)
+
+/-- the answers to a sequence of questions and `CopyReset`s. -/
+def World.runOps {F : Type} (ctx : Ctx F) (e : Expr F) : World F → List (WOp F) → List (Outcome (Value F))
+  | _, [] => []
+  | w, .ask q :: rest => (w.step ctx e q.1 q.2.1 q.2.2).1 :: World.runOps ctx e (w.step ctx e q.1 q.2.1 q.2.2).2 rest
+  | w, .copy k :: rest => World.runOps ctx e (w.copy ctx k) rest
+
+/-! ### the world before `fix:` dcda92d (kept for the counterexample theorem) -/
+
+/-- As the code was: `CopyReset` copied the `nodeEvaluator` POINTER, so the node evaluators — with their specialisation
+cache AND the `ExecutionState` of every lambda node — existed once and were shared by all copies; each copy owned only
+the `ExecutionState` it hands to the root node. -/
+structure OldWorld (F : Type) where
+  cache : Cache
+  lams : Nat → FnBase F
+  groups : Nat → FnBase F
+
+def OldWorld.init {F : Type} (ctx : Ctx F) (e : Expr F) : OldWorld F :=
+  { cache := compileCache ctx e, lams := fun _ => FnBase.init ctx.ops, groups := fun _ => FnBase.init ctx.ops }
+
+def OldWorld.step {F : Type} (ctx : Ctx F) (e : Expr F) (w : OldWorld F) (g : Nat) (p : Path) (σ : Scope F) :
+    Outcome (Value F) × OldWorld F :=
+  let r := runPath ctx σ p e w.cache { toFnBase := w.groups g, lams := w.lams }
+  (r.1, { cache := r.2.1, lams := r.2.2.lams, groups := fun j => if j = g then r.2.2.toFnBase else w.groups j })
+
+def OldWorld.run {F : Type} (ctx : Ctx F) (e : Expr F) : OldWorld F → List (Nat × Path × Scope F) → List (Outcome (Value F))
+  | _, [] => []
+  | w, q :: rest => (w.step ctx e q.1 q.2.1 q.2.2).1 :: OldWorld.run ctx e (w.step ctx e q.1 q.2.1 q.2.2).2 rest
 
 end Kap.C04
